@@ -250,6 +250,10 @@ func checkC14() fw.Check {
 				}})
 			}
 			cases = append(cases, fw.Case{ID: "C14/rdns-fanout", Run: func(c *fw.Ctx) { runC14RdnsFanout(c, reps) }})
+			for k := 0; k < 4; k++ {
+				k := k
+				cases = append(cases, fw.Case{ID: fmt.Sprintf("C14/rdns-slow-batch/%d", k), Bubble: true, Run: func(c *fw.Ctx) { runC14RdnsSlowBatch(c, k) }})
+			}
 			cases = append(cases, fw.Case{ID: "C14/alloc-bursts", Run: func(c *fw.Ctx) { runC14AllocBursts(c, reps) }})
 			for i := 0; i < reps/2+1; i++ {
 				i := i
@@ -403,6 +407,41 @@ func runC14RdnsFanout(c *fw.Ctx, reps int) {
 	}
 	c.Count("rdns_fanout_lookups", n)
 	c.Nontrivial("rdns-fanout")
+}
+
+// runC14RdnsSlowBatch (bubble): some lookups of a batch are slow but successful (2..4.5 virtual seconds, inside the
+// 5 s lookup timeout). What GetReverseDnsForIPs returns belongs to the caller: it is read repeatedly for 6 more virtual
+// seconds; a lookup goroutine that outlives the call and still writes into it is a write racing with these reads (race
+// detector) and shows as a map that keeps growing.
+func runC14RdnsSlowBatch(c *fw.Ctx, k int) {
+	resetProcessState()
+	rs := installResolver(func(addr string) ([]string, error, time.Duration) {
+		last := int(netip.MustParseAddr(addr).As4()[3])
+		if last%4 == k%4 {
+			return namesFor(addr), nil, time.Duration(2000+(last*37+k*400)%2500) * time.Millisecond
+		}
+		return namesFor(addr), nil, time.Millisecond
+	})
+	defer rs.restore()
+	var ips []net.IP
+	for i := 0; i < 24; i++ {
+		ips = append(ips, net.IPv4(203, 0, 114, byte(1+i)).To4())
+	}
+	m, _ := reversedns.GetReverseDnsForIPs(ips)
+	size0 := len(m)
+	for i := 0; i < 60; i++ {
+		n := 0
+		for _, names := range m {
+			n += len(names)
+		}
+		if len(m) != size0 {
+			c.Violate("C14", "rdns-map-changes-after-return", fmt.Sprintf("slow batch %d: the map GetReverseDnsForIPs returned had %d entries and has %d a little later", k, size0, len(m)), nil)
+			break
+		}
+		time.Sleep(100 * time.Millisecond)
+	}
+	c.Count("rdns_slow_batches", 1)
+	c.Nontrivial(fmt.Sprintf("rdns-slow-batch/%d", k%4))
 }
 
 func runC14Request(c *fw.Ctx, i int) {
